@@ -621,12 +621,72 @@ class Exec:
             if self.feasible(st_e.pc):
                 yield (kind, val, env3, st_e)
 
+    def loop_ordinal(self, node, kinds):
+        """ordinal of `node` among the loops of the function under execution (stable under unrelated edits)"""
+        fn = None
+        # the innermost repo function being executed is not tracked per statement; search the verified function
+        f, modpath, cls = self.repo.func(self.cur_key) if self.cur_key else (None, None, None)
+        if f is None:
+            return None
+        n = 0
+        for x in ast.walk(f):
+            if isinstance(x, kinds):
+                if x is node or (getattr(x, "lineno", None) == node.lineno and getattr(x, "col_offset", None) == node.col_offset):
+                    return n
+                n += 1
+        return None
+
     def while_stmt(self, s, env, st):
-        key = (self.cur_key, "while", s.lineno)
-        if key in self.loop_specs:
-            yield from self.loop_specs[key](self, s, None, env, st)
-            return
-        raise PyvcUnsupported(f"while loop at line {s.lineno} needs a loop contract")
+        """while loop with a sidecar inductive invariant:
+           (1) Inv holds on entry [obligation]  (2) Inv /\ guard, body => Inv [obligation per fall-through path]
+           (3) continue after the loop from a havocked state with Inv /\ not guard."""
+        ordinal = self.loop_ordinal(s, ast.While)
+        spec = self.loop_specs.get((self.cur_key, "while", ordinal))
+        if spec is None:
+            raise PyvcUnsupported(f"while loop #{ordinal} at line {s.lineno} of {self.cur_key} needs a loop contract")
+        inv = spec["invariant"]
+        assigned = sorted({n.id for b in s.body for n in ast.walk(b) if isinstance(n, ast.Name) and isinstance(n.ctx, ast.Store)})
+        assigned = [v for v in assigned if v in env]
+        from .spec import NS
+        # (1) entry
+        self.obligations.append(Obligation(f"{self.cur_key}.while{ordinal}.invariant_on_entry", "loop-inv", list(st.hyps),
+                                           z3_bool(inv(NS(env))), {"props": spec.get("props", ())}))
+        # havoc
+        e2 = dict(env)
+        for v in assigned:
+            t = ty_of(env[v])
+            if t is None:
+                raise PyvcUnsupported(f"while loop variable {v} has no symbolic type")
+            if v in spec.get("types", {}):
+                t = spec["types"][v]
+            e2[v] = fresh(t, "loop_" + v)
+        st_h = st.assume(inv(NS(e2)))
+        for c, st_c in self.expr(s.test, e2, st_h):
+            if isinstance(c, Raised):
+                yield ("raise", c, e2, st_c)
+                continue
+            for b, st_b in self.fork_truth(st_c, c):
+                if not b:
+                    # (3) exit
+                    if s.orelse:
+                        yield from self.block(s.orelse, e2, st_b)
+                    else:
+                        yield ("fall", None, e2, st_b)
+                    continue
+                # (2) one arbitrary iteration
+                for kind, val, e3, st3 in self.block(s.body, e2, st_b):
+                    if kind in ("fall", "continue"):
+                        self.obligations.append(Obligation(f"{self.cur_key}.while{ordinal}.invariant_preserved", "loop-inv",
+                                                           list(st3.hyps), z3_bool(inv(NS(e3))), {"props": spec.get("props", ())}))
+                        if "variant" in spec:
+                            v0, v1 = spec["variant"](NS(e2)), spec["variant"](NS(e3))
+                            self.obligations.append(Obligation(f"{self.cur_key}.while{ordinal}.variant_decreases", "loop-inv",
+                                                               list(st3.hyps), z3_bool(v_and(v_cmp("<", v1, v0), v_cmp(">=", v0, 0))),
+                                                               {"props": spec.get("props", ())}))
+                    elif kind == "break":
+                        raise PyvcUnsupported("break inside a contracted while loop")
+                    else:
+                        yield (kind, val, e3, st3)
 
     def try_stmt(self, s, env, st):
         if s.finalbody:
@@ -730,6 +790,202 @@ class Exec:
             n = len(e.keys)
             yield PyDict(list(zip(vs[:n], vs[n:]))), st2
         yield from self.bind(self.exprs(list(e.keys) + list(e.values), env, st), fin)
+
+    # ---- comprehensions
+    def _comp_unrolled(self, elt_fn, gens, env, st):
+        """literal iterables: unroll; elt_fn(env, st) yields (value, st)"""
+        def go(gi, env, st):
+            if gi == len(gens):
+                for v, st2 in elt_fn(env, st):
+                    yield ([v] if not isinstance(v, Raised) else v), st2
+                return
+            g = gens[gi]
+            if g.is_async:
+                raise PyvcUnsupported("async comprehension")
+            for it, st1 in self.expr(g.iter, env, st):
+                if isinstance(it, Raised):
+                    yield it, st1
+                    continue
+                items = self.iter_items(it, st1)
+                if items is None:
+                    raise _SymbolicIter(it)
+
+                def over(i, acc, st):
+                    if i == len(items):
+                        yield acc, st
+                        return
+                    e2 = dict(env)
+                    self.assign(g.target, items[i], e2, st)
+
+                    def conds(ci, st):
+                        if ci == len(g.ifs):
+                            yield True, st
+                            return
+                        for c, st2 in self.expr(g.ifs[ci], e2, st):
+                            if isinstance(c, Raised):
+                                yield c, st2
+                                continue
+                            for b, st3 in self.fork_truth(st2, c):
+                                if b:
+                                    yield from conds(ci + 1, st3)
+                                else:
+                                    yield False, st3
+                    for ok_, st2 in conds(0, st):
+                        if isinstance(ok_, Raised):
+                            yield ok_, st2
+                        elif not ok_:
+                            yield from over(i + 1, acc, st2)
+                        else:
+                            for sub, st3 in go(gi + 1, e2, st2):
+                                if isinstance(sub, Raised):
+                                    yield sub, st3
+                                else:
+                                    yield from over(i + 1, acc + sub, st3)
+                yield from over(0, [], st1)
+        yield from go(0, env, st)
+
+    def e_ListComp(self, e, env, st):
+        try:
+            yield from self._comp_unrolled(lambda env2, st2: self.expr(e.elt, env2, st2), e.generators, env, st)
+        except _SymbolicIter as si:
+            yield from self.symbolic_comp(e, si.it, env, st)
+
+    def e_GeneratorExp(self, e, env, st):
+        yield from self.e_ListComp(e, env, st)
+
+    def e_SetComp(self, e, env, st):
+        def fin(vs, st2):
+            yield PySet(vs), st2
+        yield from self.bind(self.e_ListComp(e, env, st), fin)
+
+    def e_DictComp(self, e, env, st):
+        def elt(env2, st2):
+            def on(vs, st3):
+                yield (vs[0], vs[1]), st3
+            yield from self.bind(self.exprs([e.key, e.value], env2, st2), on)
+        try:
+            for vs, st2 in self._comp_unrolled(elt, e.generators, env, st):
+                if isinstance(vs, Raised):
+                    yield vs, st2
+                else:
+                    yield PyDict(vs), st2
+        except _SymbolicIter as si:
+            yield from self.symbolic_dictcomp(e, si.it, env, st)
+
+    def symbolic_dictcomp(self, e, it, env, st):
+        """{key(k): val(k) for k in <symbolic map keys / items> if cond}  ->  a lambda-defined finite map.
+        Supported when the key expression is the iteration key itself."""
+        from .builtins import MapView
+        if len(e.generators) != 1:
+            raise PyvcUnsupported("nested symbolic dict comprehension")
+        g = e.generators[0]
+        if isinstance(it, MapView):
+            coll, kind = it.coll, it.kind
+        elif isinstance(it, Sym) and isinstance(it.ty, MapTy):
+            coll, kind = it, "keys"
+        else:
+            raise PyvcUnsupported(f"dict comprehension over {it!r}")
+        if kind == "values":
+            raise PyvcUnsupported("dict comprehension over .values()")
+        mt = coll.ty
+        k = z3.Const(fresh_name("dk"), mt.key.sort)
+        ksym = Sym(mt.key, k)
+        e2 = dict(env)
+        if kind == "keys":
+            self.assign(g.target, ksym, e2, st)
+        else:
+            self.assign(g.target, (ksym, Sym(mt.val, mt.opt.val(z3.Select(coll.e, k)))), e2, st)
+        indom = mt.opt.is_some(z3.Select(coll.e, k))
+        st_k = st.assume(indom)
+        base_len = len(st_k.pc)
+        outs = []
+        conds = list(g.ifs)
+
+        def run(st_k):
+            def cgo(ci, st):
+                if ci == len(conds):
+                    yield True, st
+                    return
+                for c, st2 in self.expr(conds[ci], e2, st):
+                    if isinstance(c, Raised):
+                        yield c, st2
+                        continue
+                    t = truth(c)
+                    for c2, st3 in cgo(ci + 1, st2):
+                        if isinstance(c2, Raised):
+                            yield c2, st3
+                        else:
+                            yield v_and(t, c2), st3
+            for c, st2 in cgo(0, st_k):
+                if isinstance(c, Raised):
+                    yield c, None, None, st2
+                    continue
+                for kv, st3 in self.exprs([e.key, e.value], e2, st2):
+                    if isinstance(kv, Raised):
+                        yield kv, None, None, st3
+                    else:
+                        yield c, kv[0], kv[1], st3
+        normal = []
+        for c, kk, vv, st2 in run(st_k):
+            if isinstance(c, Raised):
+                # an element raises: k is the (existential) witness in the path condition
+                yield c, st2
+                continue
+            normal.append((c, kk, vv, st2))
+        if len(normal) != 1:
+            raise PyvcUnsupported("symbolic dict comprehension with forking element expression")
+        c, kk, vv, st2 = normal[0]
+        if len(st2.qpc) != len(st_k.qpc):
+            raise PyvcUnsupported("symbolic dict comprehension whose element adds quantified constraints")
+        extras = st2.pc[base_len:]
+        if extras:
+            # guards passed for the arbitrary key (e.g. `delta[k]` present): on the non-raising path they hold for
+            # *every* key of the collection
+            st = st.assume(z3.ForAll([k], z3.Implies(indom, z3.And(*extras))))
+        if not (isinstance(kk, Sym) and kk.e.get_id() == k.get_id()):
+            raise PyvcUnsupported("symbolic dict comprehension with a computed key")
+        vt = ty_of(vv)
+        rt = MapTy(mt.key, vt)
+        body = z3.If(z3.And(indom, z3_bool(c)), rt.opt.some(coerce(vv, vt)), rt.opt.none())
+        yield Sym(rt, z3.Lambda([k], body)), st
+
+    def symbolic_comp(self, e, it, env, st):
+        """[f(x) for x in <symbolic Seq>]  (no ifs): a fresh sequence constrained element-wise.
+        With boolean elements the result can feed any()/all()."""
+        from .builtins import QuantSeq
+        if len(e.generators) != 1:
+            raise PyvcUnsupported("nested symbolic comprehension")
+        g = e.generators[0]
+        if not (isinstance(it, Sym) and isinstance(it.ty, SeqTy)):
+            raise PyvcUnsupported(f"comprehension over {it!r}")
+        i = z3.Int(fresh_name("ci"))
+        elem = Sym(it.ty.elem, it.e[i])
+        e2 = dict(env)
+        self.assign(g.target, elem, e2, st)
+        st_i = st.assume(i >= 0, i < z3.Length(it.e))
+        guard = None
+        outs = []
+        for c_list, st_c in self.exprs(list(g.ifs), e2, st_i):
+            if isinstance(c_list, Raised):
+                raise PyvcUnsupported("raising condition in symbolic comprehension")
+            gcond = v_and(*[truth(c) for c in c_list]) if c_list else True
+            for v, st2 in self.expr(e.elt, e2, st_c):
+                if isinstance(v, Raised):
+                    raise PyvcUnsupported("raising element in symbolic comprehension")
+                outs.append((gcond, v, st2))
+        if len(outs) != 1 or len(outs[0][2].pc) != len(st_i.pc):
+            raise PyvcUnsupported("symbolic comprehension with forking element expression")
+        gcond, v, _ = outs[0]
+        if ty_of(v) is BoolT or isinstance(v, bool):
+            yield QuantSeq(it, i, z3_bool(v), None if gcond is True else z3_bool(gcond)), st
+            return
+        if gcond is not True:
+            raise PyvcUnsupported("filtering comprehension over a symbolic sequence")
+        vt = ty_of(v)
+        out = z3.Const(fresh_name("comp"), z3.SeqSort(vt.sort))
+        st2 = st.assume(z3.Length(out) == z3.Length(it.e),
+                        z3.ForAll([i], z3.Implies(z3.And(i >= 0, i < z3.Length(it.e)), out[i] == coerce(v, vt))))
+        yield Sym(SeqTy(vt), out), st2
 
     def e_Lambda(self, e, env, st):
         yield FuncV(e, env.get("__module__"), cls=env.get("__class__"), closure=dict(env)), st
@@ -879,14 +1135,11 @@ class Exec:
 
     def subscript(self, v, k, st, where):
         if isinstance(v, PyDict):
-            for kk, vv in reversed(v.items):
-                c = v_eq(kk, k)
-                if c is True:
-                    yield vv, st
-                    return
-                if c is not False:
-                    raise PyvcUnsupported("symbolic key into dict literal")
-            yield Raised(ExcVal("KeyError"), where), st
+            for val, st2 in self.pydict_lookup(v, k, st):
+                if val is _MISSING:
+                    yield Raised(ExcVal("KeyError"), where), st2
+                else:
+                    yield val, st2
             return
         if isinstance(v, (tuple, list)):
             if not isinstance(k, int):
@@ -926,6 +1179,21 @@ class Exec:
                 yield v_index(v, k), st
                 return
         raise PyvcUnsupported(f"subscript on {v!r}")
+
+    def pydict_lookup(self, d, k, st):
+        """lookup in a dict literal; a symbolic key forks over the entries (later entries win)"""
+        def go(i, st):
+            if i < 0:
+                yield _MISSING, st
+                return
+            kk, vv = d.items[i]
+            c = v_eq(kk, k)
+            for b, st2 in self.fork(st, c if isinstance(c, bool) else z3_bool(c)):
+                if b:
+                    yield vv, st2
+                else:
+                    yield from go(i - 1, st2)
+        yield from go(len(d.items) - 1, st)
 
     # ---- attribute access
     def getattr(self, r, attr, st, where=None):
@@ -1089,6 +1357,9 @@ class Exec:
                     if fn_ == attr:
                         yield self.uf_apply(f"{base}.{attr}", [r], self.world.ann_to_ty(ann, self.repo.classes[n].path)), st
                         return
+        if self.specs is not None and base is not None and self.specs.iface_ret(base, "." + attr) is not None:
+            yield self.uf_apply(f"{base}.{attr}", [r], self.specs.iface_ret(base, "." + attr)), st
+            return
         yield ValMethod(r, attr), st
 
     def getattr_class(self, r, attr, st):
@@ -1349,6 +1620,14 @@ class Exec:
             if self.world.union_root(name):
                 raise
             yield PyRecord(name, vals), st
+
+
+_MISSING = object()
+
+
+class _SymbolicIter(Exception):
+    def __init__(self, it):
+        self.it = it
 
 
 _EXC_CI = {}
